@@ -140,7 +140,13 @@ func parseVia(name, text, entry string, plan *ReaderPlan, uniq string) *parseRes
 	pan, msg := protect(func() {
 		switch entry {
 		case "bytes":
-			res.m, res.err = asm.ParseBytes(name, []byte(text))
+			buf := []byte(text)
+			res.m, res.err = asm.ParseBytes(name, buf)
+			// The caller reuses its buffer as soon as ParseBytes has returned; the
+			// module must not share memory with it.
+			for i := range buf {
+				buf[i] = "@%!$ x9"[i%7]
+			}
 		case "reader":
 			if plan == nil {
 				plan = &ReaderPlan{Seed: 1, MaxChunk: 4096, FailAt: -1}
